@@ -2,13 +2,18 @@ package c10
 
 import (
 	"fmt"
+	"sync"
 	"testing"
+
+	bpmn "github.com/olive-io/bpmn/v2"
+	"github.com/olive-io/bpmn/v2/pkg/tracing"
 
 	"pgregory.net/rapid"
 
 	"verif/harness/drive"
 	"verif/harness/gen"
 	"verif/harness/model"
+	"verif/harness/perturb"
 	"verif/harness/rec"
 )
 
@@ -297,5 +302,127 @@ func TestC10Boundary(t *testing.T) {
 		}
 		rt.Fatalf("%s", rec.Fail(rec.Failure{Property: prop, Test: "TestC10Boundary", Symptom: out.Symptom, Detail: out.Detail, Descriptor: d,
 			History: map[string]any{"steps": out.Steps, "traces": out.Traces, "xml": out.XML}, Goroutines: out.Gs}))
+	})
+}
+
+// ---------------------------------------------------------------------------
+// TestC10LateEvent: the host's boundary event is delivered at the earliest
+// moment at which the activity is observably complete - when the subscriber
+// receives the host's ActiveBoundaryTrace{Start:false} - and must not react.
+// (The engine clears the host's "active" gate before it sends that trace, so
+// on conforming code the delivery, which starts after the trace was received,
+// always finds the gate closed: the oracle does not depend on timing.)
+
+type lateDesc struct {
+	HostKind  string `json:"hostKind"`
+	Interrupt bool   `json:"interrupt"`
+	Message   bool   `json:"message"`
+	Perturb   uint64 `json:"perturb"`
+}
+
+func runLate(d lateDesc) (sym, det, inconcl string) {
+	def := gen.EventDef{Kind: "signal", Ref: "s0"}
+	if d.Message {
+		def = gen.EventDef{Kind: "message", Ref: "m0"}
+	}
+	bt := build(descriptor{HostKind: d.HostKind, Bounds: []boundary{{Def: def, Interrupt: d.Interrupt}}})
+	prog := &gen.Program{G: bt.g, DefaultLang: "expr"}
+	if d.Perturb != 0 {
+		perturb.Install(d.Perturb, 60, map[string]bool{"tracer.send": true})
+		defer perturb.Remove()
+	}
+	in, err := drive.New(prog.XML(), drive.Options{})
+	if err != nil {
+		return "construct", err.Error(), ""
+	}
+	defer in.Close()
+	ev := drive.Signal("s0")
+	if d.Message {
+		ev = drive.Message("m0", "")
+	}
+	var fired sync.WaitGroup
+	delivered := false
+	in.OnTrace = func(idx int, t tracing.ITrace) {
+		if ab, ok := t.(bpmn.ActiveBoundaryTrace); ok && !ab.Start && !delivered {
+			if id, present := ab.Node.Id(); present && *id == bt.host {
+				delivered = true
+				fired.Add(1)
+				go func() { defer fired.Done(); in.P.ConsumeEvent(ev) }()
+			}
+		}
+	}
+	if err := in.StartAll(); err != nil {
+		return "start", err.Error(), ""
+	}
+	if _, err := in.Quiesce(); err != nil {
+		return "", "", err.Error()
+	}
+	tts := in.NewTasks()
+	if len(tts) != 1 {
+		return "requests", fmt.Sprintf("%d requests after start", len(tts)), ""
+	}
+	// (sub-process host: the single request is the inner task)
+	tts[0].Do()
+	if _, err := in.Quiesce(); err != nil {
+		return "", "", err.Error()
+	}
+	fired.Wait()
+	if _, err := in.Quiesce(); err != nil {
+		return "", "", err.Error()
+	}
+	if !delivered {
+		return "harness", "the host's ActiveBoundaryTrace{Start:false} was never seen", ""
+	}
+	var ids []string
+	for _, tt := range in.NewTasks() {
+		id, _ := tt.GetActivity().Element().Id()
+		ids = append(ids, *id)
+	}
+	if len(ids) != 1 {
+		return "late-reaction", fmt.Sprintf("event delivered after the host's ActiveBoundaryTrace{Start:false} was received: requests %v, want only the normal-path task (the boundary event reacted after the activity completed)", ids), ""
+	}
+	return "", "", ""
+}
+
+func TestC10LateEvent(t *testing.T) {
+	var rd lateDesc
+	if ok, err := rec.ReplayInput(&rd); ok {
+		if err != nil {
+			t.Fatal(err)
+		}
+		if rd.HostKind == "" {
+			return
+		}
+		fails := 0
+		for i := 0; i < 50; i++ {
+			if sym, det, _ := runLate(rd); sym != "" {
+				fails++
+				if fails == 1 {
+					fmt.Printf("REPRODUCED %s: %s\n", sym, det)
+				}
+			}
+		}
+		if fails > 0 {
+			t.Fatalf("reproduced in %d of 50 runs", fails)
+		}
+		return
+	}
+	rapid.Check(t, func(rt *rapid.T) {
+		kinds := append([]string{"sub"}, gen.TaskKinds...)
+		d := lateDesc{HostKind: rapid.SampledFrom(kinds).Draw(rt, "host"), Interrupt: rapid.Bool().Draw(rt, "interrupt"), Message: rapid.Bool().Draw(rt, "message"),
+			Perturb: uint64(rapid.IntRange(0, 400).Draw(rt, "perturb"))}
+		hash := rec.Hash(d)
+		rec.Begin("TestC10LateEvent", hash, d)
+		sym, det, inc := runLate(d)
+		if inc != "" {
+			rec.End(hash, "inconclusive")
+			rec.Inconclusive("TestC10LateEvent", inc)
+			rt.Fatalf("inconclusive: %s", inc)
+		}
+		rec.End(hash, sym)
+		rec.Case("TestC10LateEvent", hash, true, []string{"lateEvent", "host=" + d.HostKind}, d)
+		if sym != "" {
+			rt.Fatalf("%s", rec.Fail(rec.Failure{Property: prop, Test: "TestC10LateEvent", Symptom: sym, Detail: det, Descriptor: d}))
+		}
 	})
 }
